@@ -153,6 +153,10 @@ type c12Layout struct {
 	// LineAt: index of the declaration in front of which a //line directive stands (positions below it are reported in
 	// another file); 0 = none
 	LineAt int `json:"lineat,omitempty"`
+	// ImportCmt: a single un-parenthesised import with this trailing comment stands in front of the first declaration,
+	// ImportTight: on the line directly above it
+	ImportCmt   string `json:"importcmt,omitempty"`
+	ImportTight bool   `json:"importtight,omitempty"`
 }
 
 var c12Words = []string{"Does things.", "x = y", "see Other", "a // b", "note: careful", "TODO(me): later", "中文 doc", "tail", "host:port or :port", "key:value pairs follow", "0:off 1:on", "unit:ms", "http://example.com/x", "a:b"}
@@ -239,6 +243,10 @@ func genC12Layout(t *rapid.T) c12Layout {
 	if rapid.IntRange(0, 4).Draw(t, "linedirective") == 0 {
 		l.LineAt = rapid.IntRange(1, len(l.Decls)-1).Draw(t, "lineat")
 	}
+	if rapid.IntRange(0, 3).Draw(t, "importcmt") == 0 {
+		l.ImportCmt = rapid.SampledFrom([]string{"for side effects", "+gengo:runtimedoc", "Does things.", "@name value"}).Draw(t, "importcmttext")
+		l.ImportTight = rapid.Bool().Draw(t, "importtight")
+	}
 	return l
 }
 
@@ -271,6 +279,12 @@ func (it c12Item) tail() string {
 func (l c12Layout) source() string {
 	b := &strings.Builder{}
 	b.WriteString("package p\n\n")
+	if l.ImportCmt != "" {
+		fmt.Fprintf(b, "import _ \"unsafe\" // %s\n", l.ImportCmt)
+		if !l.ImportTight {
+			b.WriteString("\n")
+		}
+	}
 	for di, d := range l.Decls {
 		if di > 0 && !d.Tight {
 			b.WriteString("\n")
